@@ -282,3 +282,79 @@ func govcReplayWith(weights []int64, draw int64, sweep bool) bool {
 		},
 	})
 }
+
+func init() {
+	harnesses = append(harnesses, &harness{
+		name: "retry-state balance replay (real resource manager, max_retries=5)",
+		match: func(o *Obligation) bool {
+			return o.Kind == "post" && strings.Contains(o.Func, "proxy.(*retryState).")
+		},
+		run: func(eng *Engine, o *Obligation) *ReplayOutcome {
+			src := `package proxy
+
+import (
+	"context"
+	"fmt"
+	"testing"
+	"time"
+
+	metrics "github.com/rcrowley/go-metrics"
+	v2 "mosn.io/mosn/pkg/config/v2"
+	"mosn.io/mosn/pkg/types"
+	"mosn.io/mosn/pkg/upstream/cluster"
+)
+
+type govcCI struct {
+	types.ClusterInfo
+	mgr types.ResourceManager
+}
+
+func (ci *govcCI) ResourceManager() types.ResourceManager { return ci.mgr }
+func (ci *govcCI) Stats() *types.ClusterStats {
+	return &types.ClusterStats{UpstreamRequestRetryOverflow: metrics.NewCounter(), UpstreamRequestRetry: metrics.NewCounter()}
+}
+
+type govcPolicy struct{}
+
+func (govcPolicy) RetryOn() bool                 { return true }
+func (govcPolicy) TryTimeout() (d time.Duration) { return }
+func (govcPolicy) NumRetries() uint32            { return 3 }
+func (govcPolicy) RetryableStatusCodes() []uint32 { return nil }
+
+// The refuted postcondition says: the retry state releases a retries slot it does not hold
+// (holder(r) == 0 before the call). Replay on the real resource manager: a fresh retry state,
+// then the call sequences the proxy performs (reset alone; retry, reset, reset = the
+// successful-response path). The retries resource must never be negative and must end at 0.
+func TestGovcReplay(t *testing.T) {
+	bad := ""
+	run := func(name string, f func(rs *retryState)) {
+		rm := cluster.NewResourceManager(v2.CircuitBreakers{Thresholds: []v2.Thresholds{{MaxRetries: 5}}})
+		rs := newRetryState(govcPolicy{}, nil, &govcCI{mgr: rm}, "Http1")
+		f(rs)
+		if cur := rm.Retries().Cur(); cur != 0 {
+			bad += fmt.Sprintf(" [%s: retries resource = %d]", name, cur)
+		}
+	}
+	run("reset", func(rs *retryState) { rs.reset() })
+	run("retry;reset;reset", func(rs *retryState) {
+		rs.retry(context.Background(), nil, types.StreamConnectionFailed)
+		rs.reset()
+		rs.reset()
+	})
+	run("retry;retry;reset", func(rs *retryState) {
+		rs.retry(context.Background(), nil, types.StreamConnectionFailed)
+		rs.retry(context.Background(), nil, types.StreamConnectionFailed)
+		rs.reset()
+	})
+	if bad != "" {
+		fmt.Println("REPLAY-CONFIRMED" + bad)
+	} else {
+		fmt.Println("REPLAY-NOT-REPRODUCED")
+	}
+}
+`
+			out, _ := runOverlayTest("pkg/proxy", src, "^TestGovcReplay$")
+			return outcomeFromOutput(src, out)
+		},
+	})
+}
